@@ -6,6 +6,7 @@ import (
 	"encoding/hex"
 	"fmt"
 	"math"
+	"os"
 	"reflect"
 	"strconv"
 	"strings"
@@ -81,6 +82,17 @@ func newTrackFs() *trackFs { return &trackFs{Fs: afero.NewMemMapFs()} }
 
 func (t *trackFs) Create(name string) (afero.File, error) {
 	f, err := t.Fs.Create(name)
+	if err != nil {
+		return nil, err
+	}
+	t.file = &trackFile{File: f, closeErr: t.closeErr}
+	return t.file, nil
+}
+
+// a destination opened through OpenFile (whatever the flags) is tracked like one that was Create()d: how the file is
+// opened is judged over the real file system (sink=file, conf=, kind=proc: stale content), not here
+func (t *trackFs) OpenFile(name string, flag int, perm os.FileMode) (afero.File, error) {
+	f, err := t.Fs.OpenFile(name, flag, perm)
 	if err != nil {
 		return nil, err
 	}
